@@ -9,11 +9,12 @@ open Petl.Gen
 
 def expectedC14 : List (String × String) := [
   ("file:comparison.py", "c46d05a1308c92ce"),
+  ("file:compat.py", "2a259e16acd200bc"),
   ("file:config.py", "142bde514c82c29d"),
   ("file:io/base.py", "e2315106bbcaaf95"),
   ("file:io/json.py", "5e1ef8b67f567a77"),
-  ("file:transform/regex.py", "6f7519d83abfcff1"),
-  ("file:transform/reshape.py", "e9dad8513b846f8e"),
+  ("file:transform/regex.py", "7acd499a0489265c"),
+  ("file:transform/reshape.py", "b1f08e12c952f763"),
   ("file:transform/sorts.py", "137f7e8a70e043fe"),
   ("file:transform/unpacks.py", "dc09fa3e6a63a9d8"),
   ("file:util/base.py", "771a68108eeb730d"),
@@ -26,7 +27,7 @@ def expectedC14 : List (String × String) := [
   ("transform.reshape.FlattenView", "5fc5230cb9bc0f2b"),
   ("transform.reshape.UnflattenView", "5f577361423f6aa7"),
   ("transform.reshape.itermelt", "65263f3aa79af60b"),
-  ("transform.reshape.iterpivot", "002ec4acb410082f"),
+  ("transform.reshape.iterpivot", "395bb26e4fdfc15e"),
   ("transform.reshape.iterrecast", "e11b8f8444c41df5"),
   ("transform.reshape.itertranspose", "ff40ae8f0c651466"),
   ("transform.unpacks.iterunpack", "07feefca2ee4294b"),
